@@ -589,6 +589,11 @@ func (e *qaEval) allocValueAt(al *ssa.Alloc, at ssa.Instruction) (*QA, error) {
 		}
 		switch len(b.Preds) {
 		case 0:
+			// the entry block: a local that was not assigned yet holds its zero value
+			// (`var count int` whose address is taken later)
+			if bt, isB := al.Type().(*types.Pointer).Elem().Underlying().(*types.Basic); isB && bt.Info()&types.IsNumeric != 0 {
+				return qaConst(new(big.Rat)), nil
+			}
 			return nil, fmt.Errorf("local %s read before being written", al.Comment)
 		case 1:
 			return valueAtExit(b.Preds[0], depth+1)
